@@ -34,7 +34,7 @@ na = [{"property_id": p, "reason": NA.get(p, "check not built yet in this revisi
 hooks_commits = []
 m = {
     "version": 1,
-    "setup_cmd": "cd lean && lake build",
+    "setup_cmd": "/venv/bin/python tools/setup.py",
     "hooks": {
         "guard": "MIDGARD_VERIF",
         "enable": "no source hooks are needed: checks import /repo's working tree in-process (PYTHONPATH=/repo) and set MIDGARD_VERIF=1 only as a marker",
